@@ -18,7 +18,7 @@ def short(t, n=110):
 
 def main():
     rows = []
-    stats = {"r1": [0, 0, 0], "r2": [0, 0, 0], "r3": [0, 0, 0], "r4": [0, 0, 0]}
+    stats = {}
     for sid in sorted(os.listdir(os.path.join(HERE, "seeded"))):
         mp = os.path.join(HERE, "seeded", sid, "meta.json")
         if not os.path.isfile(mp):
@@ -27,7 +27,9 @@ def main():
         if not m.get("breaks"):
             rows.append("| %s | — | negative control: %s | %s |" % (sid, short(m.get("what", ""), 90), m.get("verdict", m.get("ran", ""))[:60]))
             continue
-        rnd = "r4" if "-r4" in sid else ("r3" if "-r3" in sid else ("r2" if "-r2" in sid else "r1"))
+        mm = re.search(r"-r(\d+)m\d+$", sid)
+        rnd = int(mm.group(1)) if mm else 1
+        stats.setdefault(rnd, [0, 0, 0])
         rules = m.get("caught_by_rules") or {}
         own = m["breaks"] in rules
         if rules:
@@ -44,10 +46,9 @@ def main():
     head = "| seed | breaks | change | reported by (rule) |\n|---|---|---|---|\n"
     table = head + "\n".join(rows) + "\n"
     summary = []
-    for r, (n, c, o) in stats.items():
+    for r, (n, c, o) in sorted(stats.items()):
         if n:
-            summary.append("%s: %d evaluated, %d reported by some check, %d by the check of the property the change breaks" % (
-                {"r1": "round 1", "r2": "round 2", "r3": "round 3", "r4": "round 4"}[r], n, c, o))
+            summary.append("round %d: %d evaluated, %d reported by some check, %d by the check of the property the change breaks" % (r, n, c, o))
     text = "<!-- SEEDTABLE:BEGIN -->\n" + "\n".join("* " + s for s in summary) + "\n\n" + table + "<!-- SEEDTABLE:END -->"
     if "--write" in sys.argv:
         p = os.path.join(HERE, "DESIGN.md")
